@@ -318,3 +318,201 @@ Section Leaf.
     fcut lpar s' = fcut lpar s /\ fmem lpar s' = fmem lpar s /\ fpar lpar s' = fpar lpar s.
   Proof. rewrite bridge_predict. apply predict_is_read_only. Qed.
 End Leaf.
+
+(* ================================================================================================
+   The SAME regenerated inherited methods at the composite forecasters of SkV.C09.Model: the object
+   is a C09 state, its fields are the own data of the top node, and the methods a composite provides
+   or overrides are
+     self._set_fh   = the regenerated optional-horizon mixin (ensemble, pipeline, multiplexer); the
+                      stacking forecaster's required-horizon mixin keeps the horizon seen in fit
+     self.update    = C09's update (regenerated there: C09/Bridge.v)
+     self._predict  = hand the horizon to the members, then C09's predict
+     self._update_predict_single = the regenerated base-class method.
+   Comp.v (the model the correspondence runs on composite histories) is what these give. *)
+Require Import SkV.C10.Comp.
+
+Section Composite.
+  Variable leaf : Type.
+  Variable lpar : Type.
+  Variable lfit : leaf -> series -> lpar.
+  Variable lpred : leaf -> lpar -> series -> Z -> Z -> Q.
+  Variable tr : Type.
+  Variable tpar : Type.
+  Variable tfit : tr -> series -> tpar.
+  Variable tupd : tr -> tpar -> series -> bool -> tpar.
+  Variable tapp : tr -> tpar -> series -> series.
+  Variable tinv : tr -> tpar -> series -> series.
+  Variable tskip : tr -> bool.
+  Variable thasupd : tr -> bool.
+  Variable reg : Type.
+  Variable rpar : Type.
+  Variable rfit : reg -> list (list Q) -> list Q -> rpar.
+  Variable rpred : reg -> rpar -> list Q -> Q.
+
+  Local Notation stT := (st leaf lpar tr tpar reg rpar).
+  Local Notation own' := (own leaf lpar tr tpar reg rpar).
+  Local Notation with_own' := (with_own leaf lpar tr tpar reg rpar).
+  Local Notation k_set_fh' := (k_set_fh leaf lpar tr tpar reg rpar).
+  Local Notation k__predict' := (k__predict leaf lpar lpred tr tpar tinv tskip reg rpar rpred).
+  Local Notation k_update' := (k_update leaf lpar lfit tr tpar tupd tapp thasupd reg rpar).
+  Local Notation k_predict_p' := (k_predict_p leaf lpar lpred tr tpar tinv tskip reg rpar rpred).
+  Local Notation k_predict' := (k_predict leaf lpar lpred tr tpar tinv tskip reg rpar rpred).
+  Local Notation k_ups' :=
+    (k_ups leaf lpar lfit lpred tr tpar tupd tapp tinv tskip thasupd reg rpar rpred).
+  Local Notation k_mc_step' :=
+    (k_mc_step leaf lpar lfit lpred tr tpar tupd tapp tinv tskip thasupd reg rpar rpred).
+  Local Notation k_update_predict' :=
+    (k_update_predict leaf lpar lfit lpred tr tpar tupd tapp tinv tskip thasupd reg rpar rpred).
+
+  (* ---- the object ---- *)
+  Definition K_get_cutoff (s : stT) : Z := cut (own' s).
+  Definition K_set_cutoff (s : stT) (c : Z) : stT := with_own' (b_set_cut c) s.
+  Definition K_get_fh (s : stT) : option (list Z) := Some (hor (own' s)).
+  Definition K_set_fh_field (s : stT) (fh : option (list Z)) : stT :=
+    match fh with Some h => with_own' (b_set_hor h) s | None => s end.
+  (* ---- what the composite classes provide ---- *)
+  Definition K_set_fh (fitted : bool) (s : stT) (fh : option (list Z)) : stT * bool :=
+    match s with
+    | SStack _ _ _ _ _ _ _ _ _ _ _ => (s, true)          (* required-horizon mixin, same horizon *)
+    | _ => gen_set_fh stT K_get_fh K_set_fh_field fitted s fh
+    end.
+  Definition K_update (s : stT) (y : series) (up : bool) : stT * bool := (k_update' s y up, true).
+
+  (* ---- the regenerated inherited methods at this object ---- *)
+  Definition KG_predict := gen_predict stT K_get_fh K_set_fh k__predict'.
+  Definition KG__ups := gen__update_predict_single stT K_get_fh K_set_fh K_update k__predict'.
+  Definition KG_update_predict_single := gen_update_predict_single stT K_get_fh K_set_fh KG__ups.
+  Definition KG_update_predict := gen_update_predict stT K_get_cutoff K_set_cutoff K_get_fh KG__ups.
+
+  Lemma K_set_fh_is s fh : K_set_fh true s fh = (k_set_fh' s fh, true).
+  Proof.
+    unfold K_set_fh, k_set_fh, gen_set_fh, K_set_fh_field, K_get_fh.
+    destruct s, fh; reflexivity.
+  Qed.
+
+  Theorem bridge_comp_predict s fh : KG_predict s fh = k_predict' s fh.
+  Proof.
+    unfold KG_predict, gen_predict, k_predict, k_predict_p. rewrite K_set_fh_is.
+    unfold K_get_fh. destruct (k__predict' (k_set_fh' s fh) (hor (own' (k_set_fh' s fh)))).
+    reflexivity.
+  Qed.
+
+  Lemma bridge_comp__ups s y h up : KG__ups s y h up = k_predict' (k_update' s y up) (Some h).
+  Proof.
+    unfold KG__ups, gen__update_predict_single, K_update. fold KG_predict.
+    apply bridge_comp_predict.
+  Qed.
+
+  Theorem bridge_comp_update_predict_single s y fh up :
+    KG_update_predict_single s y fh up = k_ups' s y fh up.
+  Proof.
+    unfold KG_update_predict_single, gen_update_predict_single, k_ups. rewrite K_set_fh_is.
+    unfold K_get_fh. apply bridge_comp__ups.
+  Qed.
+
+  Definition kacc_rel (a : stT * list series * list Z * bool) (m : stT * list (Z * series)) : Prop :=
+    let '(s, ps, cs, ok) := a in
+    let '(s', out) := m in
+    s = s' /\ ok = true /\ out = List.combine cs ps /\ length cs = length ps.
+
+  Lemma bridge_comp_mc_body y h up a m w :
+    kacc_rel a m ->
+    kacc_rel (gen_predict_moving_cutoff_loop1 stT K_get_cutoff KG__ups y h up a w)
+             (k_mc_step' h up m (take y w)).
+  Proof.
+    destruct a as [[[s ps] cs] ok], m as [s' out]. intros (-> & -> & -> & L).
+    unfold gen_predict_moving_cutoff_loop1, k_mc_step. rewrite bridge_comp__ups.
+    unfold k_predict. destruct (k_predict_p' (k_update' s' (take y w) up) (Some h)) as [s2 p].
+    cbn. repeat split.
+    - symmetry. apply combine_snoc. exact L.
+    - rewrite !app_length. cbn. lia.
+  Qed.
+
+  Lemma bridge_comp_mc_fold y h up : forall ws a m,
+    kacc_rel a m ->
+    kacc_rel (fold_left (gen_predict_moving_cutoff_loop1 stT K_get_cutoff KG__ups y h up) ws a)
+             (fold_left (k_mc_step' h up) (map (take y) ws) m).
+  Proof.
+    induction ws as [|w ws IH]; intros a m R; [exact R|].
+    cbn [fold_left map]. apply IH. apply bridge_comp_mc_body. exact R.
+  Qed.
+
+  Lemma with_own_cut_id (s : stT) : with_own' (b_set_cut (cut (own' s))) s = s.
+  Proof.
+    destruct s as [g l b p|a b ms|b ts m|b m|g r rp b ms|]; cbn; try reflexivity;
+      destruct b; reflexivity.
+  Qed.
+
+  Lemma with_own_cut_twice (s : stT) c d :
+    with_own' (b_set_cut d) (with_own' (b_set_cut c) s) = with_own' (b_set_cut d) s.
+  Proof. destruct s; reflexivity. Qed.
+
+  Lemma own_with_own_cut (s : stT) c : s <> SBad _ _ _ _ _ _ -> cut (own' (with_own' (b_set_cut c) s)) = c.
+  Proof. destruct s; intros H; try reflexivity. contradiction. Qed.
+
+  (* update_predict on a composite: the cutoff that is detached, moved and restored is the
+     composite's OWN; each window goes through the composite's update and predict *)
+  Theorem bridge_comp_update_predict s y cv up :
+    KG_update_predict s y cv up = k_update_predict' s y cv up.
+  Proof.
+    unfold KG_update_predict, gen_update_predict, k_update_predict, k_default_cv, K_get_fh. cbv zeta.
+    set (c := match cv with Some c => c | None => _ end).
+    replace (match cv with Some v_cv => Some v_cv | None => _ end) with (Some c)
+      by (destruct cv; reflexivity).
+    unfold gen_predict_moving_cutoff, gen_set_cutoff, K_set_cutoff, K_get_cutoff. cbv zeta.
+    destruct (cv_windows c (Z.of_nat (length y))) as [ws|].
+    - pose proof (bridge_comp_mc_fold y (cv_fh c) up ws
+                    (with_own' (b_set_cut (zfirst (times y) + - (1))) s, [], [], true)
+                    (with_own' (b_set_cut (zfirst (times y) - 1)) s, [])) as R.
+      replace (zfirst (times y) + - (1)) with (zfirst (times y) - 1) in * by lia.
+      specialize (R (conj eq_refl (conj eq_refl (conj eq_refl eq_refl)))).
+      destruct (fold_left (gen_predict_moving_cutoff_loop1 _ _ _ _ _ _) ws _) as [[[s1 ps] cs] ok].
+      destruct (fold_left (k_mc_step' (cv_fh c) up) _ _) as [s1' out].
+      destruct R as (-> & -> & -> & _). reflexivity.
+    - rewrite with_own_cut_twice, with_own_cut_id. reflexivity.
+  Qed.
+
+  (* the composite's own cutoff is restored by the regenerated update_predict (a multiplexer whose
+     selection names no member has no state: SBad) *)
+  Definition is_bad (s : stT) : bool := match s with SBad _ _ _ _ _ _ => true | _ => false end.
+
+  Lemma is_bad_with_own f s : is_bad (with_own' f s) = is_bad s.
+  Proof. destruct s; reflexivity. Qed.
+  Lemma is_bad_set_hor h s :
+    is_bad (set_hor leaf lpar tr tpar reg rpar h s) = is_bad s.
+  Proof. destruct s; reflexivity. Qed.
+  Lemma is_bad_update s y up : is_bad (k_update' s y up) = is_bad s.
+  Proof.
+    unfold k_update. destruct s as [g l b p|a b ms|b ts m|b m|g r rp b ms|]; cbn [update];
+      try reflexivity.
+    - destruct up; reflexivity.
+    - destruct y; [reflexivity|].
+      destruct (upd_chain _ _ _ _ _ _ _ _) as [[ts' yt] tc].
+      destruct (update _ _ _ _ _ _ _ _ _ _ m yt up). reflexivity.
+    - destruct (update _ _ _ _ _ _ _ _ _ _ m y up). reflexivity.
+  Qed.
+  Lemma is_bad_predict_p s fh : is_bad (fst (k_predict_p' s fh)) = is_bad s.
+  Proof.
+    unfold k_predict_p, k__predict. cbn [fst]. rewrite is_bad_set_hor.
+    unfold k_set_fh. destruct fh; [|reflexivity]. destruct s; reflexivity.
+  Qed.
+
+  Theorem site_comp_update_predict_restores_cutoff s y cv up :
+    is_bad s = false -> K_get_cutoff (fst (KG_update_predict s y cv up)) = K_get_cutoff s.
+  Proof.
+    intros Hs. rewrite bridge_comp_update_predict. unfold k_update_predict. cbv zeta.
+    destruct (cv_windows _ _) as [ws|]; [|reflexivity].
+    set (c := match cv with Some c => c | None => _ end).
+    assert (G : forall l a, is_bad (fst a) = false ->
+                is_bad (fst (fold_left (k_mc_step' (cv_fh c) up) l a)) = false).
+    { induction l as [|w l IH]; intros [s0 out] H0; [exact H0|]. cbn [fold_left]. apply IH.
+      unfold k_mc_step.
+      pose proof (is_bad_predict_p (k_update' s0 w up) (Some (cv_fh c))) as P.
+      destruct (k_predict_p' (k_update' s0 w up) (Some (cv_fh c))) as [s2 p]. cbn [fst] in *.
+      rewrite P, is_bad_update. exact H0. }
+    specialize (G (map (take y) ws) (with_own' (b_set_cut (zfirst (times y) - 1)) s, [])).
+    cbn [fst] in G. rewrite is_bad_with_own in G. specialize (G Hs).
+    destruct (fold_left _ _ _) as [s1 out]. cbn [fst] in *. unfold K_get_cutoff.
+    destruct s1; try reflexivity. discriminate.
+  Qed.
+End Composite.
